@@ -180,6 +180,12 @@ func c17Queries(p *dict.Parser, m *refdict.Model, prevResolvable map[string]bool
 			if want != nil {
 				nowResolvable[q] = true
 			}
+			// the same lookup with the code given as a Go int (what the untyped avp.* constants are)
+			got, err = p.FindAVPWithVendor(app, int(k.code), k.vendor)
+			n++
+			if s := cmpAVP(got, err, want, false, app, k.code, k.vendor); s != "" {
+				return n, fmt.Sprintf("FindAVPWithVendor(%d, int(%d), %d)", app, k.code, k.vendor), s
+			}
 			if k.vendor == refdict.AnyVendor {
 				got, err = p.FindAVP(app, int(k.code))
 				n++
@@ -294,7 +300,7 @@ func runC17(ctx *ev.Ctx) {
 	}
 	ctx.Set("lookups_compared", total)
 	ctx.AddEvals(total, total)
-	ctx.Rule = "loading histories: the embedded dictionaries (extracted from diam/dict/default.go) in default order, every rotation and every adjacent swap; a generated family of four 3-AVP dictionaries that redefine each other's codes and names across application 0 / 4 / 16777251 and vendor variants, in all 24 orders, alone and on top of the base dictionary. After every Load: FindAVPWithVendor by uint32 code and by name, FindAVP by int, FindCommand and App(id[,type]) for every application (loaded, children of the parent map, 0, an unrelated id) x every code / name present anywhere plus +-1 neighbours x vendor {declared, 0, another, wildcard} are compared with the reference model, and everything resolvable before the Load must still be. Distinct by (history, query)."
+	ctx.Rule = "loading histories: the embedded dictionaries (extracted from diam/dict/default.go) in default order, every rotation and every adjacent swap; a generated family of four 3-AVP dictionaries that redefine each other's codes and names across application 0 / 4 / 16777251 and vendor variants, in all 24 orders, alone and on top of the base dictionary. After every Load: FindAVPWithVendor by uint32 code, by int code and by name, FindAVP by int, FindCommand and App(id[,type]) for every application (loaded, children of the parent map, 0, an unrelated id) x every code / name present anywhere plus +-1 neighbours x vendor {declared, 0, another, wildcard} are compared with the reference model, and everything resolvable before the Load must still be. Distinct by (history, query)."
 	ctx.Assume = []string{"reference model refdict: application -> documented parents (16777251->4, 16777238->4, 4->1) -> base; exact vendor or wildcard; last load wins"}
 }
 
